@@ -1,17 +1,37 @@
 ENTRY = {
     "level": "proof",
     "families": [fam("C12", 6000, 200000,
-                     opts={"quick": {"exh_n": 7, "exh_size": 6, "exh_nodes": 4}, "thorough": {"exh_n": 9, "exh_size": 6, "exh_nodes": 4}})],
+                     opts={"quick": {"exh_n": 9, "exh_size": 6, "exh_nodes": 4}, "thorough": {"exh_n": 10, "exh_size": 7, "exh_nodes": 5}})],
     "gen_items": [],
-    "rule": "placeholder",
-    "trusted_base": COMMON_TB,
-    "assumptions": [],
-    "min_tags": {},
+    "rule": "cases: (a) ENUMERATION of every multiset of <= 9 split sizes in 1..6 on 2..4 nodes (15015 instances; thorough: <= 10 sizes in 1..7 on 2..5 nodes) as "
+            "synthetic SplitSets; (b) 75% random SplitSets (0..400 splits, nodes 0..64, size regimes: heavy ties incl. 0, boundary sizes 4MiB/64MiB+-1, up to 2^40, "
+            "overflow candidates near 2^64; 1-2 tables, 1-4 file names incl. non-ASCII and empty, duplicate canonical keys, negative/zero row counts, shuffled order, "
+            "total_bytes sometimes unrelated to the splits); (c) 25% random small instances (<= 10 splits, sizes up to 50, 1..5 nodes). "
+            "K = exact equality of the whole Assignment (per_node, node_bytes, node_rows, node_splits, nodes, total_bytes) or panic<->modelled overflow. "
+            "O on the implementation's Assignment: node count, partition of 0..n, per-node byte/row/count sums, totals, canonical order inside each node, identical result for a "
+            "clone with different mount paths, and maxLoad <= (4/3-1/(3N)) x OPT with OPT by brute force when n <= 10 (tag bound-brute), else against the lower bound "
+            "max(ceil(total/N), p_1, p_N+p_{N+1}) (tag bound-lb; if that sufficient test fails the case is counted bound-inconclusive, not failed). "
+            "non-trivial = no panic, >= 2 splits and >= 2 nodes; distinct by sha256 of the canonical case",
+    "trusted_base": COMMON_TB + [
+        "modelled not verified: the body of assign_lpt (IQE.Engine.Lpt); Rust slice::sort_by/sort_by_key stability (model uses a stable sort, proved equal to List.mergeSort)",
+        "str ordering = bytewise lexicographic on UTF-8 (Rust std), modelled on byte lists",
+        "brute-force optimum in the oracle (IQE.Engine.Lpt.bruteOpt) is unverified code; it only feeds the oracle for the half of the 4/3 bound that is not proved",
+    ],
+    "assumptions": [
+        "u64/i64 `+=` overflow panics in the checked (dev) build the harness uses and is mirrored as Outcome.panic; the theorems are over unbounded naturals (a real table's totals fit)",
+        "the hard half of Graham's 4/3 theorem (all splits up to the critical one exceed OPT/3, where LPT is optimal) is NOT proved: C12_lpt_bound_partial; covered by enumeration only",
+    ],
+    "min_tags": {"small": 1000, "set": 1000, "bound-brute": 1000, "bound-lb": 100, "size-ties": 500, "zero-bytes": 50, "dup-keys": 20, "nodes0": 20, "nodes>n": 100, "panic": 1},
     "manifest": {
         "category": "proof",
-        "text": "placeholder",
+        "text": "Lean theorems over the executable model of assign_lpt, for every split list and node count (induction over the greedy fold): partition of the split indices, "
+                "per-node byte/row/count sums and totals, canonical per-node order and tie-break rules (stable (bytes desc, key asc) order; lowest-index least-loaded node), "
+                "Graham's inequality N*maxLoad <= total + (N-1)*p_l, hence maxLoad <= (2-1/N)*makespan of ANY assignment, and the 4/3-1/(3N) bound whenever the critical split is "
+                "<= a third of that makespan (C12_lpt_bound_partial). The remaining case of the 4/3 bound is checked by exhaustive enumeration of small instances against a brute-force optimum, not proved. "
+                "Tied to the code by exact differential correspondence of the whole Assignment.",
         "design_ref": "DESIGN.md §6 C12",
-        "level_note": "placeholder",
-        "technique": "Lean 4 proof over executable model + differential correspondence with the Rust code",
+        "level_note": "Trusted: Lean kernel; axioms propext/Classical.choice/Quot.sound; the hand-written model of assign_lpt (validated by correspondence only); harness generators. "
+                      "Partial: 4/3 bound proved only for p_l <= OPT/3; the other half is enumeration (<= 9 splits, <= 4 nodes, sizes <= 6 in the quick tier).",
+        "technique": "Lean 4 proof over executable model + differential correspondence with the Rust code + labelled exhaustive enumeration for the unproved half of the bound",
     },
 }
